@@ -270,6 +270,7 @@ macro_rules! bt_proof {
     ($name:ident, $unw:expr, $body:expr) => {
         #[kani::proof]
         #[kani::stub(std::backtrace::Backtrace::capture, crate::verif_common::no_backtrace)]
+        #[kani::stub(<::anyhow::Error as std::ops::Drop>::drop, crate::verif_common::anyhow_drop_noop)]
         #[kani::unwind($unw)]
         fn $name() {
             $body
@@ -369,6 +370,7 @@ macro_rules! ss_proof {
     ($name:ident, $unw:expr, $body:expr) => {
         #[kani::proof]
         #[kani::stub(std::backtrace::Backtrace::capture, crate::verif_common::no_backtrace)]
+        #[kani::stub(<::anyhow::Error as std::ops::Drop>::drop, crate::verif_common::anyhow_drop_noop)]
         #[kani::stub(f64::ln, crate::verif_common::ln_mono_stub)]
         #[kani::unwind($unw)]
         fn $name() {
